@@ -381,7 +381,18 @@ def runStimulus (g : Gw) (line : String) (snap : Bool) : Gw × String :=
           if isBarrier f then go (acc ++ (run.toArray.insertionSort (fun a b => ridOf a < ridOf b)).toList ++ [f]) [] rest
           else go acc (run ++ [f]) rest
       go [] [] fs
-    let obs := clients.flatMap (fun c => canonClient (frames.filter (fun o => clientOf o == c))) ++ sortStrs rest
+    -- runs of responses to different requests: by request id (their order is a race between the
+    -- cache workers of different resources; no property orders them)
+    let resId := fun (f : String) => if ((f.splitOn " ").getD 2 "") == "res" then ((f.splitOn " ").getD 3 "").toNat? else none
+    let canonRes := fun (fs : List String) =>
+      let rec goRes (acc : List String) (run : List String) : List String → List String
+        | [] => acc ++ (run.toArray.insertionSort (fun a b => (resId a).getD 0 < (resId b).getD 0)).toList
+        | f :: rest =>
+          if (resId f).isNone then
+            goRes (acc ++ (run.toArray.insertionSort (fun a b => (resId a).getD 0 < (resId b).getD 0)).toList ++ [f]) [] rest
+          else goRes acc (run ++ [f]) rest
+      goRes [] [] fs
+    let obs := clients.flatMap (fun c => canonRes (canonClient (frames.filter (fun o => clientOf o == c)))) ++ sortStrs rest
     let obs := match g1.panic with
       | some p => obs ++ [s!"PANIC {p}"]
       | none => obs
